@@ -144,7 +144,7 @@ func (s *c05Sys) Ops() []string {
 		ops = append(ops, "tick(121s)", "sweep")
 	case "totp":
 		cookieIdx(func(i int) {
-			for _, code := range []string{"A", "B", "A-prev-step", "A-accepted-before", "bad"} {
+			for _, code := range []string{"A", "B", "A-next-step", "A-prev-step", "A-accepted-before", "bad"} {
 				ops = append(ops, fmt.Sprintf("totp(c%d,%s)", i, code))
 			}
 		})
@@ -261,9 +261,18 @@ func (s *c05Sys) Canon() string {
 	for _, c := range s.chals {
 		ch = append(ch, fmt.Sprintf("%s:%v:%d", c.ForUser, c.Used, int(vclock.Now().Sub(c.Issued)/time.Second)))
 	}
+	// accepted codes by owner and by the 30 s step they belong to, relative to now
+	// (which code was spent matters for what a later replay means)
 	var ta []string
 	for k := range s.totpAccepted {
-		ta = append(ta, k)
+		u, code, _ := strings.Cut(k, "|")
+		rel := "old"
+		for d := -3; d <= 3; d++ {
+			if vfTOTPCode(u, vclock.Now().Add(time.Duration(d)*30*time.Second)) == code {
+				rel = fmt.Sprint(d)
+			}
+		}
+		ta = append(ta, u+":"+rel)
 	}
 	sort.Strings(ta)
 	var bu []string
@@ -276,7 +285,7 @@ func (s *c05Sys) Canon() string {
 		ct = append(ct, k)
 	}
 	sort.Strings(ct)
-	parts = append(parts, "rl="+strings.Join(rl, ","), fmt.Sprintf("pend=%d", pend), "ch="+strings.Join(ch, ","), "ta="+fmt.Sprint(len(ta)), "bu="+strings.Join(bu, ","), "cli="+strings.Join(ct, ","),
+	parts = append(parts, "rl="+strings.Join(rl, ","), fmt.Sprintf("pend=%d", pend), "ch="+strings.Join(ch, ","), "ta="+strings.Join(ta, ","), "bu="+strings.Join(bu, ","), "cli="+strings.Join(ct, ","),
 		fmt.Sprintf("t=%d", int(vclock.Now().Sub(time.Unix(vclock.EpochUnix, 0))/time.Second)))
 	return strings.Join(parts, " ")
 }
@@ -287,6 +296,9 @@ func (s *c05Sys) totpCode(which string) (code, owner string, stale bool) {
 		return vfTOTPCode(c05A, vclock.Now()), c05A, false
 	case "B":
 		return vfTOTPCode(c05B, vclock.Now()), c05B, false
+	case "A-next-step":
+		// an authenticator whose clock runs slightly ahead: inside the accepted window
+		return vfTOTPCode(c05A, vclock.Now().Add(30*time.Second)), c05A, false
 	case "A-prev-step":
 		return vfTOTPCode(c05A, vclock.Now().Add(-90*time.Second)), c05A, true
 	case "A-accepted-before":
